@@ -106,8 +106,9 @@ impl PeerId {
 
         match multihash.code() {
             code if code == u64::from(Code::Sha2_256) => Ok(PeerId { multihash }),
-            MULTIHASH_IDENTITY_CODE if multihash.digest().len() <= MAX_INLINE_KEY_LENGTH =>
-                Ok(PeerId { multihash }),
+            MULTIHASH_IDENTITY_CODE if multihash.digest().len() <= MAX_INLINE_KEY_LENGTH => {
+                Ok(PeerId { multihash })
+            }
             _ => Err(multihash),
         }
     }
